@@ -752,3 +752,5 @@ REWRITES = [
 ]
 MUTANTS.append(Mutant("relay-ok-ends-the-loop", CON, "            elif isinstance(token, Prologue):", "            if isinstance(token, Prologue):", "C12.R7", "seed C12-16"))
 MUTANTS.append(Mutant("drain-queue-while-iterating", CON, "        while self._inbound_record_queue:\n            r = self._inbound_record_queue.pop(0)\n", "        for r in self._inbound_record_queue:\n            self._inbound_record_queue.remove(r)\n", ("C12.R8", "C12.R"), "seed C12-17"))
+
+MUTANTS.append(Mutant("memoised-encoder", CON, "def encode_record(r):\n", "@functools.lru_cache(maxsize=64)\ndef encode_record(r):\n", "C12.R9", "seed C12-19"))
